@@ -343,6 +343,35 @@ def task_nad_step(ctx):
     nad_nuclear_step(ctx, True)
 
 
+def replay_dof(model):
+    """real Langevin driver on the zero-padded batch [water, H2]: degrees of freedom per molecule must be 3 x (its real atoms) =
+    [9, 6], and the kinetic temperature of the freshly drawn velocities must be the target for BOTH molecules."""
+    import io, contextlib, os, tempfile, shutil
+    import torch
+    from seqm.seqm_functions.constants import Constants
+    from seqm.Molecule import Molecule
+    import seqm.MolecularDynamics as M
+
+    torch.set_default_dtype(torch.float64)
+    d = tempfile.mkdtemp(prefix="pyvc_c12_")
+    try:
+        params = {"method": "AM1", "scf_eps": 1e-7, "scf_converger": [1], "sp2": [False, 1e-5], "elements": [0, 1, 8], "learned": [], "pair_outer_cutoff": 1e10, "eig": True}
+        mol = Molecule(Constants(), params, torch.tensor([[[0.0, 0, 0], [0.96, 0, 0], [-0.24, 0.93, 0]], [[0.0, 0, 0], [0.74, 0, 0], [0.0, 0, 0]]]), torch.tensor([[8, 1, 1], [1, 1, 0]]))
+        md = M.Molecular_Dynamics_Langevin(damp=20.0, seqm_parameters=params, timestep=0.5, Temp=300.0, output={"molid": [0], "prefix": os.path.join(d, "md"), "print every": 0, "checkpoint every": 0, "xyz": 0, "h5": {}})
+        with contextlib.redirect_stdout(io.StringIO()):
+            torch.manual_seed(3)
+            md.initialize(mol)
+        ndof = [float(x) for x in torch.as_tensor(md.n_dof, dtype=torch.float64).reshape(-1)]
+        mass = 1.0 / mol.mass_inverse.clone()
+        mass[~torch.isfinite(mass)] = 0.0
+        ek = 0.5 * (mass * mol.velocities ** 2).sum(dim=(1, 2)) * M.CONSTANTS.KINETIC_ENERGY_SCALE
+        T = [float(2.0 * ek[m] / (3 * n) * M.CONSTANTS.TEMPERATURE_SCALE) for m, n in enumerate((3, 2))]
+        bad = ndof != [9.0, 6.0] or any(abs(t - 300.0) > 1e-6 for t in T)
+        return {"reproduced": bool(bad), "n_dof": ndof, "expected": [9.0, 6.0], "kinetic_temperature_of_the_initial_velocities_K": T, "target_K": 300.0}
+    finally:
+        shutil.rmtree(d, ignore_errors=True)
+
+
 def task_units(ctx):
     """O4: unit constants mutually consistent; dof counting for thermostatted engines."""
     import seqm.MolecularDynamics as M
@@ -363,7 +392,13 @@ def task_units(ctx):
         def thunk():
             md = object.__new__(getattr(M, cls))
             md.__dict__["damp"] = real("damp")
-            mol = Obj(num_atoms=st.tensor([integer("N")]))
+            # a zero-padded batch: two molecules in 4 slots, N0 and N1 real atoms (symbolic, 1..4)
+            n0, n1 = integer("N0"), integer("N1")
+            assume((n0 >= 1) & (n0 <= 4) & (n1 >= 1) & (n1 <= 4))
+            mol = _mol(4)
+            mol.coordinates = st.symbolic((2, 4, 3), "x")
+            mol.velocities = st.symbolic((2, 4, 3), "v")
+            mol.num_atoms = st.T(np.array([n0, n1], dtype=object), st.int64, True)
             md.set_dof(mol, constraints=6.0)
             return md.n_dof
 
@@ -371,9 +406,19 @@ def task_units(ctx):
             ex = Explorer()
             ex.run(thunk)
         for p in ex.paths:
-            nd = p.value.a.reshape(-1)[0] if isinstance(p.value, st.T) else S(p.value)
+            if p.raised is not None:
+                if isinstance(p.raised, Unmodelled):
+                    raise p.raised
+                ctx.fail("%s.dof.raises@p%d" % (cls, p.path_id), repr(p.raised))
+                continue
+            nd = p.value
+            if not isinstance(nd, st.T) or nd.a.reshape(-1).shape[0] != 2:
+                ctx.fail("%s.dof=3N-per-molecule-with-thermostat@p%d" % (cls, p.path_id), "n_dof is not one number per molecule: %r" % (nd,), replay=replay_dof({}))
+                continue
             pc = list(p.pc) + ([real("damp") != 0] if cls == "XL_BOMD" else [])
-            ctx.prove("%s.dof=3N-with-thermostat@p%d" % (cls, p.path_id), nd == 3 * integer("N"), pc=pc)
+            for m in range(2):
+                ctx.prove("%s.dof[%d]=3N-of-its-own-real-atoms-with-thermostat@p%d" % (cls, m, p.path_id), nd.a.reshape(-1)[m] == 3 * integer("N%d" % m), pc=pc, replay=replay_dof,
+                          classify=lambda m_, r: "degrees-of-freedom-from-the-padded-width")
     ctx.canary("per-mille-misscaling-detected", S(abs(VS * VS * KES * TS * Fraction(1001, 1000) - 1)) <= S(tol))
 
 
